@@ -25,5 +25,6 @@ Ok == b = -R - 1 \/ LET x == FromInt(a) y == FromInt(b) IN
    /\ (b >= 0 /\ b <= 9 => MToNat(MShl(x.m, b)) = NAbs(a) * 2^b /\ MToNat(MShr(x.m, b)) = NAbs(a) \div 2^b)
    /\ (a # 0 => NAbs(a) % 2^MTz(x.m) = 0 /\ (NAbs(a) \div 2^MTz(x.m)) % 2 = 1)
    /\ FromDigits(ToDigits(x.m, 10), 10) = x.m
+   /\ (b >= 1 /\ b <= 3 => LET fd == FloorDivModSmall(x, b) IN ToInt(fd[1]) * b + fd[2] = a /\ fd[2] \in 0..(b - 1))
    /\ MToNat(MFromNat(NAbs(a))) = NAbs(a)
 =============================================================================
